@@ -1,6 +1,6 @@
 (* C05 — the written entity's media type is produced by the route and best for Accept. *)
-From Model Require Import Str Sexp Http Template Table DetectRoute Negotiate.
-From Proofs Require Import NegotiateProofs.
+From Model Require Import Str Sexp Http Template Table DetectRoute Negotiate Builder.
+From Proofs Require Import NegotiateProofs BuilderProofs.
 
 (* Ranking.  For every predicate "this range selects a writer" and every list of parsed
    ranges: the first selecting range in sortedMimes' order is [best]: a selecting range of
@@ -86,3 +86,31 @@ Example C05_example :
   entity_writer qrank reg [L "application/xml"; L "application/json"] [] (L "application/json, application/xml") = [L "application/json"] /\
   entity_writer qrank reg [L "application/xml"; L "application/json"] (L "application/json") [] = [L "application/xml"].
 Proof. vm_compute. repeat split; try reflexivity; try discriminate. intros p [<-|[<-|[]]]; reflexivity. Qed.
+
+(* "the route's declared Produces": what a route that declares nothing itself inherits from its WebService is fixed
+   when the route is added. For every history of ws.Produces / ws.Consumes / ws.Route calls before it and EVERY history
+   after it, the route sits where it was put, the routes before it are untouched, and its lists are its own or, where
+   it declared none, the last ones the service had declared by then. *)
+Definition C05_registration_time_statement : Prop :=
+  forall (before after : list bop) (r : route),
+    let s := ws_build before in
+    let final := ws_build (before ++ BRoute r :: after) in
+    nth_error (w_routes final) (length (w_routes s)) = Some (copy_defaults s r) /\
+    firstn (length (w_routes s)) (w_routes final) = w_routes s /\
+    r_produces (copy_defaults s r) = inherit (last_produces before []) (r_produces r) /\
+    r_consumes (copy_defaults s r) = inherit (last_consumes before []) (r_consumes r).
+Theorem C05_registration_time : C05_registration_time_statement.
+Proof.
+  intros before after r s final.
+  destruct (route_keeps_what_it_inherited before r after) as [H1 H2].
+  destruct (inherited_lists before r) as [H3 H4]. repeat split; assumption.
+Qed.
+Print Assumptions C05_registration_time.
+
+Example C05_registration_time_example :
+  let mk own := {| r_id := 1; r_method := L "GET"; r_rel := L "/v"; r_consumes := []; r_produces := own;
+                   r_conds := []; r_noct := []; r_enc := None |} in
+  map r_produces (w_routes (ws_build [BProduces [L "application/json"; L "application/xml"]; BRoute (mk []);
+                                      BProduces [L "application/xml"]; BRoute (mk []); BRoute (mk [L "text/plain"])]))
+  = [[L "application/json"; L "application/xml"]; [L "application/xml"]; [L "text/plain"]].
+Proof. vm_compute. reflexivity. Qed.
